@@ -125,6 +125,17 @@ def gen(rng, idx, tier):
                 {"class": "CursFeatureWriter"}, {"class": "KernFeatureWriter"},
                 {"class": "MarkFeatureWriter", "options": {"groupMarkClasses": True}},
                 {"class": "GdefFeatureWriter"}]
+        if classes and rng.random() < 0.4:
+            # a contextual anchor ('*cls' + identifier + public.objectLibs entry in the glyph lib)
+            letters = [g for g in glyphs if desc[g["name"]]["kind"] == "letter"
+                       and any(a["name"] == classes[0] for a in g["anchors"])]
+            if len(letters) >= 2:
+                g0, g1 = letters[0], letters[1]
+                ident = "ctx%04d" % rng.randint(0, 9999)
+                g0["anchors"].append({"name": "*" + classes[0], "x": 111, "y": 555,
+                                      "identifier": ident})
+                g0.setdefault("lib", {})["public.objectLibs"] = {
+                    ident: {"GPOS_Context": "%s *" % g1["name"]}}
         ufo = {"glyphs": glyphs, "kerning": kerning, "groups": groups, "features": features,
                "lib": lib, "info": {"unitsPerEm": 1000, "familyName": "T", "styleName": "R"}}
         kind = "layout"
